@@ -218,7 +218,13 @@ class Gen:
         kind = r.random()
         params = None
         if kind < 0.45:
-            params = r.sample(PARAMS, r.choice([0, 1, 1, 2, 2, 3]))
+            pool = PARAMS
+            if r.random() < 0.3:
+                # a parameter spelled like a macro (defined now, later or never): inside the body the PARAMETER is meant, the macro of that
+                # name is shadowed - plain use, '#' and '##' alike (tenth seed round: one shared lookup asked the macro table first)
+                pool = PARAMS + [m for m in MACRO_NAMES if m != n]
+                self.features.add("parameter-named-like-a-macro")
+            params = r.sample(pool, r.choice([0, 1, 1, 2, 2, 3]))
         body = self.body(params or [], idx) if r.random() < 0.9 else ""
         head = "#" + r.choice(["define", "define", "define", "DEFINE", "Define"]) + r.choice([" ", " ", "  ", "\t"]) + n
         if params is not None:
